@@ -110,6 +110,8 @@ def gen_schema(c, depth=None):
         return True
     if r < 0.12:
         return False
+    if r < 0.15:
+        return Obj()        # the empty schema object (the same meaning as `true`, another Go value)
     if depth <= 0:
         return leaf_schema(c)
     table = KW_COMMON + (KW_2020 if c.draft == "2020" else KW_D7)
